@@ -116,6 +116,37 @@ def join_slow(maxseq=80, **kw):
                 maxseq=maxseq, **kw)
 
 
+def trunk_tee_rejoin(maxseq=6, slowB=True, **kw):
+    """S -> R (returns None for every third frame: ids skip on the trunk) -> A and B (slow) -> K"""
+    return Topo('TrunkTeeRejoin', {
+        'S': dict(nout=1, beh=beh('origin', tseq=[['main']])),
+        'R': dict(srcs=[src('S')], nout=1, beh=beh('relay', skip=(1, 4, 7, 10))),
+        'A': dict(srcs=[src('R')], nout=1),
+        'B': dict(srcs=[src('R')], nout=1, beh=beh('relay', slow=slowB)),
+        'K': dict(srcs=[src('A', topics=[('main', 'a')]), src('B')]),
+    }, maxseq=maxseq, **kw)
+
+
+def chain3_lazyskip(maxseq=3, **kw):
+    """the relay returns a callable for the frames it skips: evaluated when the sender is ready, it yields None"""
+    t = chain3(maxseq=maxseq, skip=(1,), **kw)
+    t.filters['A']['beh']['lazy'] = True
+    t.name = 'Chain3LazySkip'
+    return t
+
+
+def join_sparse_eph(maxseq=40, **kw):
+    """a join of a source whose ids are sparse (a relay that passes every fourth frame) and an origin that has to be pulled up to
+    each of those ids by the join's requests; a '?' listener on that origin"""
+    return Topo('JoinSparseEph', {
+        'S': dict(nout=1, beh=beh('origin', tseq=[['main']])),
+        'R': dict(srcs=[src('S')], nout=1, beh=beh('relay', skip=tuple(q for q in range(0, 200) if q % 4))),
+        'Y': dict(nout=1, beh=beh('origin', tseq=[['main']])),
+        'F': dict(srcs=[src('R', topics=[('main', 'x')]), src('Y', topics=[('main', 'y')])]),
+        'T': dict(srcs=[src('Y', eph=1)]),
+    }, maxseq=maxseq, **kw)
+
+
 def same_id(topo, names, cid):
     """the named filters are configured with the same filter id `cid` (replicas; the protocol tells them apart by uid)"""
     for f in names:
